@@ -69,3 +69,8 @@ claim("C19", "fault_enumeration",
       "exception types recorded, not constrained; sign rules anchored at constructors/loaders, reference rule at Network, ground/duplicate rules at Circuit",
       "exhaustive fault enumeration (fault class x position x value) on the real constructors, loaders and solutions",
       "DESIGN.md section 4 C19")
+claim("C20", "model_checking",
+      "Explicit-state search over real calls: the state is a fingerprint of every mutable attribute of every loaded library module (function defaults and closure cells, class dictionaries, module tables) plus a pool of shared argument objects; from the pristine state (a freshly forked process) every one of 42 public operations, every two-step history over the whole alphabet and every three-step history over the 20 operations that receive shared mutable arguments is executed; each step's result must equal the operation's result in isolation and the fingerprint must stay the pristine one (closure: one state with self-loops covers histories of any length).",
+      "fingerprint completeness for Python-level state; numpy/scipy C-level state trusted",
+      "explicit-state exploration of call histories (depth 3) on the implementation with state fingerprinting and an isolation oracle",
+      "DESIGN.md section 4 C20")
